@@ -17,7 +17,27 @@ def rewrite_event(ctx, py: PyRepo):
     fn = ci.methods.get('rewrite_event')
     ctx.require(fn is not None, 'anchor vanished: ExecutionProofExp.rewrite_event')
     where = py.where(EXE, fn)
-    ev = PyEval()
+    KEEP = {'add_assumptions_for_rewrite_step'}
+
+    def resolver(call, env, _ev):
+        """helper methods of ExecutionProofExp itself (a step split into named parts) are evaluated in place; what the class inherits
+        from ProofExp (add_claim, add_proof_expression, dynamic_inst, load_axiom ..) stays symbolic - the rule is about those calls"""
+        f = call.func
+        if not (isinstance(f, ast.Attribute) and isinstance(f.value, ast.Name)):
+            return None
+        via_self, via_cls = env.get(f.value.id) == SELF, f.value.id == ci.name
+        if not (via_self or via_cls) or f.attr not in ci.methods or f.attr in KEEP or f.attr == fn.name:
+            return None
+        g = ci.methods[f.attr]
+        decos = [ast.unparse(d).split('(')[0].split('.')[-1] for d in g.decorator_list]
+        if 'property' in decos:
+            return None
+        if 'staticmethod' in decos:
+            return g, None
+        if 'classmethod' in decos:
+            return g, ('name', ci.name)
+        return (g, SELF) if via_self else None
+    ev = PyEval(resolver=resolver)
     paths = ev.paths(fn)
     rets = [p for p in paths if p.end[0] == 'return']
     ctx.require(rets, 'rewrite_event has no returning path')
@@ -43,34 +63,29 @@ def rewrite_event(ctx, py: PyRepo):
         ctx.ob('rewrite-typestate', f'lhs-equals-current-configuration/path{i}', guard_idx is not None,
                'a step is accepted without requiring <lhs of the instantiated rule> == <current configuration>', where,
                facts={'conditions': [(show(c), b) for c, b in p.conds]})
-        # effects in order: claim registration, proof registration, configuration update - all after the guard.
-        # pyeval lists conditions and events separately; the guard dominates an effect iff the assert statement precedes it
-        # in the straight-line body, which we read off the source order of the statements.
-        guard_line = None
-        for st in ast.walk(fn):
-            if isinstance(st, ast.Assert) and 'current_configuration' in ast.unparse(st.test) or \
-                    (isinstance(st, ast.Assert) and '_curr_config' in ast.unparse(st.test)):
-                guard_line = st.lineno
-            if isinstance(st, ast.If) and ('current_configuration' in ast.unparse(st.test) or '_curr_config' in ast.unparse(st.test)) \
-                    and any(isinstance(x, ast.Raise) for x in st.body):
-                guard_line = st.lineno
+        # effects in order: claim registration, proof registration, configuration update - all after the guard.  The decision
+        # `lhs == current configuration` is an event of the path (kind 'cond'); it dominates an effect iff it precedes it there.
+        guard_pos = None
+        for k, e in enumerate(p.events):
+            if e.kind == 'cond' and guard_idx is not None and e.value == p.conds[guard_idx] and guard_pos is None:
+                guard_pos = k
         effects = {}
         all_effects: dict[str, list] = {'claim': [], 'proof': [], 'config': []}
-        for e in p.events:
+        for k, e in enumerate(p.events):
             if e.kind == 'ecall' and e.value[1] == ('attr', SELF, 'add_claim'):
-                effects['claim'] = (e.node.lineno, e.value)
-                all_effects['claim'].append(e.node.lineno)
+                effects['claim'] = (k, e.value)
+                all_effects['claim'].append(k)
             if e.kind == 'ecall' and e.value[1] == ('attr', SELF, 'add_proof_expression'):
-                effects['proof'] = (e.node.lineno, e.value)
-                all_effects['proof'].append(e.node.lineno)
+                effects['proof'] = (k, e.value)
+                all_effects['proof'].append(k)
             if e.kind == 'setattr' and e.value[0] == SELF and e.value[1] == '_curr_config':
-                effects['config'] = (e.node.lineno, e.value)
-                all_effects['config'].append(e.node.lineno)
+                effects['config'] = (k, e.value)
+                all_effects['config'].append(k)
         for name in ('claim', 'proof', 'config'):
-            ok = name in effects and guard_line is not None and all(ln > guard_line for ln in all_effects[name])
+            ok = name in effects and guard_pos is not None and all(k > guard_pos for k in all_effects[name])
             ctx.ob('rewrite-typestate', f'{name}-after-guard/path{i}', ok,
                    f'the {name} registration / update happens before (or without) the check that the step starts at the current configuration',
-                   where, facts={'guard line': guard_line, 'effect line': effects.get(name, (None,))[0]})
+                   where, facts={'guard position': guard_pos, 'effect position': effects.get(name, (None,))[0]})
         if 'claim' in effects:
             ctx.ob('rewrite-typestate', f'claim-is-instantiated-rule/path{i}', effects['claim'][1][2] == (INST,),
                    f'the claim added is {show(effects["claim"][1][2][0]) if effects["claim"][1][2] else None}, not the instantiated rule', where)
@@ -117,25 +132,55 @@ def conversion_scope(ctx, py: PyRepo):
     for mname, fn in ci.methods.items():
         if not mname.startswith('resolve_'):
             continue
-        # if name not in self.T: self.T[name] = K(name=<base +> len(self.T)) ; return self.T[name]
-        ok = False
-        tab = None
-        for n in ast.walk(fn):
-            if isinstance(n, ast.If) and isinstance(n.test, ast.Compare) and isinstance(n.test.ops[0], ast.NotIn):
-                tab = ast.unparse(n.test.comparators[0])
-                key = ast.unparse(n.test.left)
-                for st in n.body:
-                    if isinstance(st, ast.Assign) and isinstance(st.targets[0], ast.Subscript) and ast.unparse(st.targets[0].value) == tab \
-                            and ast.unparse(st.targets[0].slice) == key and isinstance(st.value, ast.Call):
-                        arg = st.value.args[0] if st.value.args else (st.value.keywords[0].value if st.value.keywords else None)
-                        txt = ast.unparse(arg) if arg is not None else ''
-                        if txt == f'len({tab})':
-                            ok, bases[mname] = True, (ast.unparse(st.value.func), 0, tab)
-                        elif txt.endswith(f'+ len({tab})'):
-                            ok, bases[mname] = True, (ast.unparse(st.value.func), txt.split('+')[0].strip(), tab)
-        rets = [r for r in ast.walk(fn) if isinstance(r, ast.Return)]
-        ok = ok and all(r.value is not None and ast.unparse(r.value) == f'{tab}[{ast.unparse(fn.args.args[1])}]'.replace(': str', '') or
-                        (r.value is not None and tab is not None and ast.unparse(r.value).startswith(tab + '[')) for r in rets)
+        # every returning path hands out the table entry of `name`, allocating K(<base +> len(T)) only when the name is new:
+        #   if name not in T: T[name] = K(..) ; return T[name]        or        return T.setdefault(name, K(..))
+        NAME = ('param', fn.args.args[1].arg) if len(fn.args.args) > 1 else None
+        ok, tab = NAME is not None, None
+        allocs = set()
+
+        def alloc_of(v, T):
+            """K(name=<base +> len(T)) -> (K, base text) else None"""
+            if not (v[0] == 'call' and v[1][0] == 'name'):
+                return None
+            args = list(v[2]) + [kv[1] for kv in v[3]]
+            if len(args) != 1:
+                return None
+            ln = ('call', ('name', 'len'), (T,), ())
+            if args[0] == ln:
+                return (v[1][1], 0)
+            if args[0][0] == 'binop' and args[0][1] == 'Add' and ln in (args[0][2], args[0][3]):
+                other = args[0][3] if args[0][2] == ln else args[0][2]
+                return (v[1][1], show(other))
+            return None
+        rets = [p for p in PyEval().paths(fn) if p.end[0] == 'return'] if ok else []
+        ok = ok and bool(rets)
+        for p in rets:
+            rv = p.end[1]
+            if rv[0] == 'call' and rv[1][0] == 'attr' and rv[1][2] == 'setdefault' and len(rv[2]) == 2 and rv[2][0] == NAME:
+                T = rv[1][1]
+                al = alloc_of(rv[2][1], T)
+                if al is None:
+                    ok = False
+                else:
+                    allocs.add((al, T))
+            elif rv[0] == 'sub' and rv[2] == NAME:
+                T = rv[1]
+                known = [b for c, b in p.conds if c == ('cmp', 'in', NAME, T)]
+                sets = [e.value for e in p.events if e.kind == 'setitem' and e.value[0] == T]
+                if known == [True] and not sets:
+                    pass
+                elif known == [False] and len(sets) == 1 and sets[0][1] == NAME and alloc_of(sets[0][2], T) is not None:
+                    allocs.add((alloc_of(sets[0][2], T), T))
+                else:
+                    ok = False
+            else:
+                ok = False
+        if ok and len(allocs) == 1:
+            (ctor, base), T = next(iter(allocs))
+            tab = show(T)
+            bases[mname] = (ctor, base, tab)
+        else:
+            ok = False
         ctx.ob('scope-allocator', f'ConvertionScope.{mname}', ok,
                f'{mname} must allocate len(table) (plus a constant base) only under a `name not in table` guard and return the table entry: '
                f'equal names get equal variables, distinct names distinct ones', py.where(SEM, fn))
@@ -213,11 +258,11 @@ def fresh_substitution(ctx, py: PyRepo):
     sem = py.cls('LanguageSemantics', SEM)
     fn = sem.methods.get('convert_substitutions')
     ctx.require(fn is not None, 'anchor vanished: LanguageSemantics.convert_substitutions')
-    rets = [n for n in ast.walk(fn) if isinstance(n, ast.Return) and n.value is not None]
+    from .c16 import returned_exprs
+    rets = returned_exprs(fn)
     params = {a.arg for a in fn.args.args + fn.args.kwonlyargs}
     ok, why = bool(rets), 'no return'
-    for r in rets:
-        v = r.value
+    for _r, v in rets:
         if isinstance(v, (ast.Dict, ast.DictComp)) or (isinstance(v, ast.Call) and ast.unparse(v.func) in ('dict', 'frozendict')):
             continue
         if isinstance(v, ast.Name):
@@ -256,8 +301,8 @@ def name_wrapping(ctx, py: PyRepo):
         ctx.require(pre is not None, f'{c.name}.aml_symbol: prefixing idiom not recognised')
         n += 1
         where = py.where(SEM, unwrap)
-        rets = [r.value for r in ast.walk(unwrap) if isinstance(r, ast.Return) and r.value is not None
-                and not (isinstance(r.value, ast.Constant) and r.value.value is None)]
+        from .c16 import returned_exprs
+        rets = [v for _st, v in returned_exprs(unwrap) if not (isinstance(v, ast.Constant) and v.value is None)]
         ok, why = bool(rets), 'no value returned'
         for v in rets:
             good = False
